@@ -156,6 +156,51 @@ func amdImage(in []byte, args map[string]string) []byte {
 	return img
 }
 
+// amdCookieScanShapes (gap closing round 3): Find{PSP,BIOS}DirectoryTable are scan loops over every "$PSP" /
+// "$BHD" cookie of the image — parse error: step over the cookie and go on; success: return.  Shapes: the
+// last cookie d bytes before the end of the image (inside the 16-byte table header, exactly behind it, inside
+// the first entry), alone / behind candidates that fail for another reason (entry count too large) / two in a
+// row / back to back; both cookies in every image so that both scans meet their shape.
+func amdCookieScanShapes(tier string) []Seed {
+	var ss []Seed
+	cand := func(cookie string, entries uint32, k int) []byte { // cookie, checksum, TotalEntries, AdditionalInfo, cut to k bytes
+		b := make([]byte, 16+24)
+		copy(b, cookie)
+		le32(b, 8, entries)
+		return b[:k]
+	}
+	gap := func(k int) []byte { return bytes.Repeat([]byte{0x5a}, k) }
+	cat := func(ps ...[]byte) []byte {
+		var b []byte
+		for _, p := range ps {
+			b = append(b, p...)
+		}
+		return b
+	}
+	ds := []int{4, 5, 8, 12, 15, 16, 17, 31, 32, 40}
+	if tier == "thorough" {
+		ds = nil
+		for d := 4; d <= 40; d++ {
+			ds = append(ds, d)
+		}
+	}
+	for _, d := range ds {
+		for _, n := range []uint32{0, 1} { // announced entries: none (complete at 16 bytes) / one (cut off below 32 / 40)
+			tail := cat(cand("$PSP", n, d), cand("$BHD", n, d))
+			ss = append(ss, Seed{Name: fmt.Sprintf("tail-cookie-%d-n%d/none-before", d, n), In: cat(gap(7), tail)})
+			ss = append(ss, Seed{Name: fmt.Sprintf("tail-cookie-%d-n%d/failing-before", d, n),
+				In: cat(cand("$PSP", 0x7fffffff, 16), cand("$BHD", 0xffffffff, 16), gap(3), tail)})
+		}
+	}
+	ss = append(ss,
+		Seed{Name: "two-tail-cookies", In: cat(gap(5), cand("$PSP", 1, 9), cand("$PSP", 1, 6), cand("$BHD", 1, 9), cand("$BHD", 1, 6))},
+		Seed{Name: "cookies-back-to-back", In: cat(bytes.Repeat([]byte("$PSP"), 9), bytes.Repeat([]byte("$BHD"), 9))},
+		Seed{Name: "cookies-back-to-back-4K", In: cat(bytes.Repeat([]byte("$PSP"), 512), bytes.Repeat([]byte("$BHD"), 512))},
+		Seed{Name: "level2-cookies-only", In: cat(cand("$PL2", 0, 16), cand("$BL2", 0, 16), []byte("$PL2$BL2"))},
+	)
+	return ss
+}
+
 func init() {
 	Register(&EP{
 		Name: "amd.firmware",
@@ -295,7 +340,8 @@ func init() {
 
 	// the table / structure parsers directly on hostile bytes
 	Register(&EP{
-		Name: "amd.tables",
+		Name:   "amd.tables",
+		Shapes: amdCookieScanShapes,
 		Seeds: func(r *rand.Rand) []Seed {
 			b, fs, rs := amdRegionSeed(amdSeedOpt{pre: 0, total: amdRegionLen, efsPSP: true, efsBIOS: 1})
 			cut := func(name string, lo, hi int) Seed {
